@@ -474,7 +474,7 @@ impl os::TcpConn for EpConn {
         if !st.ep_shutdown_done {
             st.ep_shutdown_done = true;
             st.out.fin = true;
-            trace(Ev::TcpShutdown, st.id, st.out.written, 0);
+            trace(Ev::TcpShutdown, st.id, if st.quiet { 0 } else { st.out.written }, 0);
             st.out.wake_reader();
         }
         Poll::Ready(Ok(()))
@@ -503,7 +503,7 @@ impl os::TcpConn for EpConn {
             return;
         }
         st.ep_read_closed = true;
-        trace(Ev::TcpCloseRead, st.id, st.inp.read, 0);
+        trace(Ev::TcpCloseRead, st.id, if st.quiet { 0 } else { st.inp.read }, 0);
         // data the endpoint never read: the peer would get a reset on its next write
         st.inp.reader_gone = true;
         st.inp.wake_writer();
@@ -519,7 +519,7 @@ impl os::TcpConn for EpConn {
             return;
         }
         st.ep_write_closed = true;
-        trace(Ev::TcpCloseWrite, st.id, st.out.written, 0);
+        trace(Ev::TcpCloseWrite, st.id, if st.quiet { 0 } else { st.out.written }, 0);
         // dropping the write half of a split stream shuts the write direction down
         st.out.fin = true;
         st.out.wake_reader();
@@ -614,7 +614,7 @@ impl PeerConn {
         let st = &mut *g;
         if !st.inp.fin {
             st.inp.fin = true;
-            trace(Ev::PeerFin, st.id, st.inp.written, 0);
+            trace(Ev::PeerFin, st.id, if st.quiet { 0 } else { st.inp.written }, 0);
             st.inp.wake_reader();
         }
     }
